@@ -39,7 +39,7 @@ def _cases() -> List[dict]:
 def plan(tier: str) -> dict:
     return {
         "runs": 12000 if tier == "quick" else 400000,
-        "budget": 60 if tier == "quick" else 1500,
+        "budget": 60 if tier == "quick" else 900,
         "cases": _cases(),
         "chunk": 30,
         "rule": "Lifespan application scripts at startup {complete fast/slow/later than startup_timeout, failed (plain, with "
